@@ -1915,6 +1915,8 @@ def corpus(tier, seed, variants=VARIANTS):
     st = cfg.get("special_stride", 1)
     off = seed % st if st > 1 else 0
     out.extend(p for i, p in enumerate(sp) if (i + off) % st == 0)
+    # the maximal-nesting programs are in every tier and seed
+    out.extend(p for p in sp if str(p.get("tag", "")).startswith("nest") and p not in out)
     # every tier and seed has, per variant, programs whose code object has a local and a free
     # (resp. cell) variable of the same name
     for variant in variants:
@@ -1926,10 +1928,44 @@ def corpus(tier, seed, variants=VARIANTS):
     return out
 
 
+_COMPILES = {}
+
+
+def _compiles(src):
+    """does this interpreter compile src?  Probed in a subprocess: CPython 3.12.1 crashes in the compiler,
+    instead of raising SyntaxError, when the block nesting limit is exceeded by certain shapes"""
+    if src not in _COMPILES:
+        import subprocess
+        try:
+            r = subprocess.run([sys.executable, "-c", "import sys; compile(sys.stdin.read(), '<probe>', 'exec')"],
+                               input=src, text=True, stdout=subprocess.DEVNULL, stderr=subprocess.DEVNULL, timeout=60)
+            _COMPILES[src] = r.returncode == 0
+        except Exception:
+            _COMPILES[src] = False
+    return _COMPILES[src]
+
+
 def special_programs(variants=VARIANTS):
     """Shapes the grammar reaches rarely: many constants (EXTENDED_ARG before LOAD_CONST None and
     on jumps), cell/free variables and extra parameters (frame layout), with-expression over
     several lines (NOP after the enter sequence on 3.11)."""
+    # the deepest block nesting the compiler accepts (CO_MAXBLOCKS = 20): on 3.9/3.10 the frame's block stack
+    # is then completely full (f_iblock == 20), on 3.11+ the exception-table chain is 20 long
+    for variant in variants:
+        found = 0
+        for depth in (20, 19, 18, 17, 16, 14, 12):
+            body = [["susp"]]
+            for lvl in range(depth):
+                is_async = variant in ASYNC_VARIANTS and lvl % 3 == 1
+                body = [["with", is_async, [["A" if is_async else "S", "v" if lvl % 2 else "n"]], body]]
+            prog = {"variant": variant, "body": body + [["susp"]], "family": "special", "flags": {},
+                    "tag": "nest%d" % depth}
+            if not _compiles(emit(prog)):
+                continue
+            yield prog
+            found += 1
+            if found == 2:
+                break
     flagsets = ({"doc": True, "consts": 260}, {"closure": 1}, {"closure": 2},
                 {"closure": 2, "doc": True, "consts": 260}, {"closure": 3}, {"closure": 4})
     for variant in variants:
